@@ -13,7 +13,7 @@ import networkx as nx
 from synkit.Graph.Matcher.batch_cluster import BatchCluster
 from synkit.Chem.Reaction.aam_validator import AAMValidator
 from synkit.Chem.Reaction.balance_check import BalanceReactionCheck
-from synkit.CRN.DAG.syncrn import SynCRN
+from synkit.CRN.DAG.syncrn import SynCRN, build_syncrn_from_smarts
 
 from ..kernel import Sim, Violation
 from ..executor import TerminatedWorkerError
@@ -55,7 +55,14 @@ CRN_SETUPS = [
     (["esterification", "transester"], ["CC(=O)O", "CO", "CCO", "CCC(=O)O"]),
     (["sn2_ether", "hydration"], ["CBr", "CO", "C=C", "O"]),
     (["imine", "aldol"], ["CC=O", "CN", "CCC=O"]),
+    (["mannich3", "imine"], ["CC=O", "CN", "CCC=O", "CC(C)=O"]),       # a three-component rule (mixtures of arity 3)
 ]
+EXTRA_RULES = {
+    "mannich3": ("[CH3:1][CH:2]=[O:3].[CH3:4][N:5]([H:6])[H:7].[CH:8]([H:11])([H:12])[CH:9]=[O:10]>>"
+                 "[CH3:1][CH:2]([N:5]([H:7])[CH3:4])[CH:8]([H:12])[CH:9]=[O:10].[H:6][O:3][H:11]"),
+}
+CRN_OPTS = {"use_frontier": [False], "max_mixtures_per_rule_step": [3, 7], "max_tasks_per_step": [5, 11], "skip_no_change": [False],
+            "dedup_delta": [False], "dedup_across_rules": [True], "max_components": [2, 1], "keep_aam": [False]}
 
 
 def _corpus() -> Dict[str, Any]:
@@ -121,9 +128,17 @@ def gen_op(rng, s) -> Dict[str, Any]:
             rows.append({"r": rng.randrange(n_rules), "kind": rng.choice(["ok", "ok", "drop", "dup"]), "k": rng.randrange(8)})
         return {"op": "balance", "s": s(), "rows": rows, "n_jobs": rng.choice([1, 2, 4, 8, -1, 3]),
                 "as_dict": rng.random() < 0.5}
-    return {"op": "crn", "s": s(), "setup": rng.randrange(len(CRN_SETUPS)), "repeats": rng.choice([1, 2]),
-            "workers": rng.choice([None, 2, 3, 8]), "mode": rng.choice(["explicit", "plain"]),
-            "n_seeds": rng.choice([2, 3, 4])}
+    o = {"op": "crn", "s": s(), "setup": rng.randrange(len(CRN_SETUPS)), "repeats": rng.choice([1, 2]),
+         "workers": rng.choice([None, 2, 3, 8]), "mode": rng.choice(["explicit", "plain"]),
+         "n_seeds": rng.choice([2, 3, 4])}
+    if rng.random() < 0.5:
+        # the expansion's own knobs (frontier, caps, de-duplication, component limit): both modes must agree under each
+        ks = rng.sample(sorted(CRN_OPTS), rng.choice([1, 1, 2, 3]))
+        o["opts"] = {k_: rng.choice(CRN_OPTS[k_]) for k_ in ks}
+        o["via_wrapper"] = rng.random() < 0.4
+    if "mannich3" in CRN_SETUPS[o["setup"]][0]:
+        o["repeats"] = 1
+    return o
 
 
 # ---------------------------------------------------------------------------
@@ -361,18 +376,27 @@ def _crn(op: Dict[str, Any], sim: Sim, world, pristine) -> None:
     C = _corpus()
     names, seeds = CRN_SETUPS[op["setup"] % len(CRN_SETUPS)]
     seeds = seeds[: max(2, op["n_seeds"])]
-    rl = [C["rules"][n] for n in names]
-    explicit = op["mode"] == "explicit"
+    rl = [C["rules"].get(n) or EXTRA_RULES[n] for n in names]
+    explicit = op["mode"] == "explicit" or "mannich3" in names
+    opts = dict(op.get("opts") or {})
 
-    def mk() -> SynCRN:
-        return SynCRN(rules=list(rl), repeats=op["repeats"], explicit_h=explicit, implicit_temp=False, strategy="bt")
+    def run(parallel: bool) -> Any:
+        if op.get("via_wrapper"):
+            return build_syncrn_from_smarts(list(rl), list(seeds), repeats=op["repeats"], explicit_h=explicit, implicit_temp=False,
+                                            strategy="bt", parallel=parallel, max_workers=(op["workers"] if parallel else None), **opts)
+        crn = SynCRN(rules=list(rl), repeats=op["repeats"], explicit_h=explicit, implicit_temp=False, strategy="bt", **opts)
+        return crn.build(list(seeds), parallel=parallel, max_workers=(op["workers"] if parallel else None))
 
-    g_par = mk().build(list(seeds), parallel=True, max_workers=op["workers"])
+    g_par = run(True)
     sim.probe("crn_parallel")
-    key = (tuple(names), tuple(seeds), op["repeats"], explicit)
+    if opts:
+        sim.probe("crn_non_default_options")
+    if "mannich3" in names:
+        sim.probe("crn_three_component_rule")
+    key = (tuple(names), tuple(seeds), op["repeats"], explicit, tuple(sorted(opts.items())), bool(op.get("via_wrapper")))
     with pristine:
         if key not in _CRN:
-            _CRN[key] = _graph_sig(mk().build(list(seeds), parallel=False))
+            _CRN[key] = _graph_sig(run(False))
         want = _CRN[key]
     got = _graph_sig(g_par)
     if got != want:
